@@ -25,5 +25,8 @@ def run(ctx):
         r9 = ctx.rule("R03.9" + sfx, "match copy routines: out[pos+i] = out[(pos-dist+i) & mask] — offset pairing, constant displacement, guarded bulk shortcuts, "
                       "tail = len & 3, argument order", floor=10, config=cfg)
         copyrt.rule_copy_routines(ctx, cfg, r9)
+        r10 = ctx.rule("R03.10" + sfx, "bit-buffer hygiene inside the state machine: a state that hands look-ahead bytes back masks bit_buf to the lowered "
+                       "num_bits before decoding goes on", floor=1, config=cfg)
+        ic.rule_handback_mask_arms(ctx, cfg, r10)
         r6 = ctx.rule("R03.6" + sfx, "slow-path Huffman walk reads only bits that are in the buffer", floor=2, config=cfg)
         ic.rule_bit_reads(ctx, cfg, r6)
